@@ -246,7 +246,8 @@ where
             Some((p, _)) => Ok((*p).clone()),
             None => match t!(self.refs.get(r.id)) {
                 XRef::Raw {pos, ..} => {
-                    let mut lexer = Lexer::with_offset(t!(self.backend.read(self.start_offset + pos ..)), self.start_offset + pos);
+                    let pos = t!(self.start_offset.checked_add(pos).ok_or(PdfError::Invalid));
+                    let mut lexer = Lexer::with_offset(t!(self.backend.read(pos ..)), pos);
                     let p = t!(parse_indirect_object(&mut lexer, resolve, self.decoder.as_ref(), flags)).1;
                     Ok(p)
                 }
